@@ -170,7 +170,7 @@ pub fn run_c17(tier: Tier, seed: u64, workers: usize) -> RunResult {
             // only layouts of real types: size is a multiple of the alignment
             let size = size / align * align;
             // the layout hook may hit an unsafe-precondition abort on a broken tree: publish the input
-            hbv::crash::set_current(0, &arith_case(2, 0, &[("size", size as u64), ("align", align as u64), ("k", 64)]).to_text(&[]));
+            hbv::crash::set_current(0, &arith_case(2, 2, &[("size", size as u64), ("align", align as u64), ("k", 64)]).to_text(&[]));
             for k in 0..64u32 {
                 acc.evals.fetch_add(2, Ordering::Relaxed);
                 let interesting = size == 0 || k >= 56 || (size as u128) << k >= 1u128 << 62;
